@@ -113,7 +113,8 @@ def _poison():
             lambda: SignatureHash(CScript(b'\x51'), t2, 5, 3), lambda: SignatureHash(CScript(b'\x51'), t, 0, 0x80000001)]
     sh_fail = [lambda: SignatureHash(CScript(b'\x51'), t, 0, 1, amount=1 << 63, sigversion=SIGVERSION_WITNESS_V0),
                lambda: SignatureHash(CScript(b'\x51'), t, 0, 1, amount=None, sigversion=SIGVERSION_WITNESS_V0),
-               lambda: SignatureHash(CScript(b'\x51'), t, 0, 0x80000001), lambda: SignatureHash(CScript(b'\x51' * 3), t, 0, 3)]
+               lambda: SignatureHash(CScript(b'\x51'), t, 0, 0x80000001), lambda: SignatureHash(CScript(b'\x51' * 3), t, 0, 0x41)]
+    bad += [lambda: SignatureHash(CScript(b'\x51' * 3), t, 0, 3)]         # (this one SUCCEEDS - output 1 is pruned -, so not among the last)
     tail_ = sh_fail + [t.calc_weight, lambda: CBlock(vtx=[t]).GetWeight(), t2.serialize, t.GetTxid, t.GetHash, lambda: hash(t), t.serialize]
     bad += tail_
     bad += [lambda: CBlockHeader(1, b'\x01' * 32, b'\x02' * 32, -1, 0, 0).serialize(), lambda: CBlock(vtx=[t]).GetWeight(),
